@@ -450,6 +450,16 @@ fn check_type_relation<T: TypeLookup>(
             })
         }
 
+        // Partial type vs concrete tuple: never assignable (the partial admits other tuples
+        // too), but the two share a value exactly when the tuple fits the partial, so overlap
+        // is the tuple-vs-partial test read the other way round.
+        (Type::Partial { .. }, Type::Tuple(_)) => match mode {
+            UnionMode::All => false,
+            UnionMode::Any => {
+                check_type_relation(pattern_id, self_id, lookup, mode, assumptions, type_stack)
+            }
+        },
+
         // Partial vs partial - check structural compatibility
         (
             Type::Partial {
@@ -466,19 +476,16 @@ fn check_type_relation<T: TypeLookup>(
                 return false;
             }
 
-            // All fields in pattern must exist in self with compatible types
+            // Every field of the pattern is checked against self's field of that name. A field
+            // self does not mention is not guaranteed (so self is not assignable), but a tuple
+            // with both sets of fields belongs to both partials (so they still overlap).
             fields2.iter().all(|(fname2, ftype2)| {
-                fields1.iter().any(|(fname1, ftype1)| {
-                    fname1 == fname2
-                        && check_type_relation(
-                            *ftype1,
-                            *ftype2,
-                            lookup,
-                            mode,
-                            assumptions,
-                            type_stack,
-                        )
-                })
+                match fields1.iter().find(|(fname1, _)| fname1 == fname2) {
+                    Some((_, ftype1)) => {
+                        check_type_relation(*ftype1, *ftype2, lookup, mode, assumptions, type_stack)
+                    }
+                    None => matches!(mode, UnionMode::Any),
+                }
             })
         }
 
